@@ -8,7 +8,7 @@ verus! {
 
 //@@ include common.rs
 //@@ trusted the link endpoint (`Self: LinkEndpointInner`, i.e. SenderInner / ReceiverInner) is a stand-in: `send_detach(closed, error)` carries the contract of Link::send_detach proved in unit LINK (a detach is queued only from Attached / DetachReceived(non-closing) / CloseReceived(closing), carrying the caller's closed flag and error; the state moves as in the table), `link_mut().on_incoming_detach` the one of Link::on_incoming_detach
-//@@ trusted recv_remote_detach (waits on the incoming channel) returns an arbitrary detach or an error and sends nothing; reattach_and_then_close (re-attach handshake) is unconstrained
+//@@ trusted the endpoint's incoming channel (mpsc::Receiver<LinkFrame>, reader_mut()) yields arbitrary frames of the peer, or None when the session is gone; what was taken from it is recorded. reattach_inner (new handle + attach exchange, units SESSION / LINK) is a stand-in: on Ok the link is Attached with a handle again, nothing but attaches was queued
 //@@ trusted leaf stand-ins: AmqpError, SessionStopReason opaque
 
 macro_rules! opaque {
@@ -34,10 +34,25 @@ pub type Boolean = bool;
 pub struct LinkS { pub st: LinkState }
 impl LinkS {
     pub fn local_state(&self) -> (r: &LinkState) ensures *r == self.st { &self.st }
+    /// contract of Link::on_incoming_detach (unit LINK: [C13.link.peer-close], [C13.link.peer-detach], [C13.link.peer-detach-error])
     #[verifier::external_body]
-    pub fn on_incoming_detach(&mut self, detach: Detach) -> (r: Result<(), DetachError>) { unimplemented!() }
+    pub fn on_incoming_detach(&mut self, detach: Detach) -> (r: Result<(), DetachError>)
+        ensures
+            detach.closed && old(self).st is CloseSent ==> final(self).st is Closed && (detach.error is Some ==> r is Err) && (detach.error is None ==> r is Ok),
+            !detach.closed && old(self).st is DetachSent ==> final(self).st is Detached && (detach.error is Some ==> r is Err) && (detach.error is None ==> r is Ok),
+            !detach.closed && !(old(self).st is Attached || old(self).st is DetachSent) ==> r is Err && final(self).st == old(self).st,
+    { unimplemented!() }
 }
-pub struct EndS { pub link: LinkS, pub sent: Ghost<Seq<(bool, Option<AmqpError>)>>, pub has_handle: Ghost<bool>, pub failures: Ghost<nat> }
+opaque!(Attach, LinkFlow, Disposition, Transfer, Payload, AcqMarker, InputHandle, AttachErrorS);
+pub enum LinkFrame { Attach(Attach), Flow(LinkFlow), Transfer { input_handle: InputHandle, performative: Transfer, payload: Payload }, Disposition(Disposition), Detach(Detach), Acquisition(AcqMarker) }
+pub struct Rx { pub got: Ghost<Seq<LinkFrame>> }
+impl Rx {
+    #[verifier::external_body]
+    pub fn recv(&mut self) -> (r: Option<LinkFrame>)
+        ensures (match r { Some(f) => final(self).got@ == old(self).got@.push(f), None => final(self).got@ == old(self).got@ }),
+    { unimplemented!() }
+}
+pub struct EndS { pub link: LinkS, pub sent: Ghost<Seq<(bool, Option<AmqpError>)>>, pub has_handle: Ghost<bool>, pub failures: Ghost<nat>, pub incoming: Rx }
 
 pub open spec fn send_legal(st: LinkState, closed: bool) -> bool {
     match (st, closed) {
@@ -51,7 +66,17 @@ impl EndS {
     pub fn link(&self) -> (r: &LinkS) ensures *r == self.link { &self.link }
     #[verifier::external_body]
     pub fn link_mut(&mut self) -> (r: &mut LinkS)
-        ensures *r == old(self).link, final(self).link == *final(r), final(self).sent == old(self).sent, final(self).failures == old(self).failures,
+        ensures *r == old(self).link, final(self).link == *final(r), final(self).sent == old(self).sent, final(self).failures == old(self).failures, final(self).incoming == old(self).incoming, final(self).has_handle == old(self).has_handle,
+    { unimplemented!() }
+    #[verifier::external_body]
+    pub fn reader_mut(&mut self) -> (r: &mut Rx)
+        ensures *r == old(self).incoming, final(self).incoming == *final(r), final(self).sent == old(self).sent, final(self).failures == old(self).failures, final(self).link == old(self).link, final(self).has_handle == old(self).has_handle,
+    { unimplemented!() }
+    /// LinkEndpointInnerReattach::reattach_inner: a fresh output handle from the session, then the attach exchange
+    #[verifier::external_body]
+    pub fn reattach_inner(&mut self) -> (r: Result<(), AttachErrorS>)
+        ensures final(self).sent == old(self).sent, final(self).failures@ >= old(self).failures@, final(self).incoming.got@.len() >= old(self).incoming.got@.len(),
+            r is Ok ==> final(self).link.st is Attached && final(self).has_handle@,
     { unimplemented!() }
     /// contracts [C13.link.one-detach] / [C13.link.detach-frame] / [C13.link.close-answered-by-close] of unit LINK
     #[verifier::external_body]
@@ -67,19 +92,48 @@ impl EndS {
                 }),
             r is Ok ==> final(self).sent@ == old(self).sent@.push((closed, error)) && final(self).failures@ == old(self).failures@,
             r is Err ==> final(self).sent@ == old(self).sent@,
-            final(self).failures@ >= old(self).failures@,
+            final(self).failures@ >= old(self).failures@, final(self).incoming == old(self).incoming,
+            send_legal(old(self).link.st, closed) ==> !final(self).has_handle@,
+            !send_legal(old(self).link.st, closed) ==> final(self).has_handle == old(self).has_handle,
             // with a handle and in a legal state the only way to fail is the channel to the session
             send_legal(old(self).link.st, closed) && old(self).has_handle@ && r is Err ==> final(self).failures@ > old(self).failures@,
     { unimplemented!() }
 }
 #[verifier::external_body]
-pub fn recv_remote_detach(e: &mut EndS) -> (r: Result<Detach, DetachError>)
-    ensures final(e).sent == old(e).sent, final(e).link.st == old(e).link.st, final(e).failures == old(e).failures,
-{ unimplemented!() }
-#[verifier::external_body]
-pub fn reattach_and_then_close(e: &mut EndS) -> (r: Result<(), DetachError>) { unimplemented!() }
-#[verifier::external_body]
 pub fn detach_error_from_stop_reason(e: &EndS) -> (r: DetachError) { unimplemented!() }
+pub trait ErrInto<T>: Sized { spec fn conv(self) -> T; fn err_into(self) -> (r: T) ensures r == self.conv(); }
+impl ErrInto<DetachError> for DetachError { open spec fn conv(self) -> DetachError { self } fn err_into(self) -> (r: DetachError) { let e = self; assert(e == <DetachError as ErrInto<DetachError>>::conv(self)); e } }
+
+//@@ fn file=fe2o3-amqp/src/link/shared_inner.rs name=recv_remote_detach
+//@@ generics
+//@@ nowhere
+//@@ attr #[verifier::exec_allows_no_decreases_clause]
+//@@ param link_inner : &mut EndS
+//@@ subst `match link_inner .reader_mut() .recv() .ok_or_else(|| detach_error_from_stop_reason(link_inner))?` => `match (match link_inner.reader_mut().recv() { Some(f) => f, None => return Err(detach_error_from_stop_reason(link_inner)) })` rule=R19
+//@@ spec
+    ensures
+        final(link_inner).sent == old(link_inner).sent, final(link_inner).link == old(link_inner).link, final(link_inner).failures == old(link_inner).failures, final(link_inner).has_handle == old(link_inner).has_handle,   // [C13.link.nothing-sent-while-waiting] waiting for the peer's detach queues nothing
+        final(link_inner).incoming.got@.len() >= old(link_inner).incoming.got@.len(),
+        r is Ok ==> final(link_inner).incoming.got@.len() > old(link_inner).incoming.got@.len()
+            && final(link_inner).incoming.got@.last() == LinkFrame::Detach(r->Ok_0),                                   // [C13.link.detach-returns-after-peer-answer] it returns Ok only with a detach actually received from the peer (other frames still in flight are skipped)
+//@@ loop 0
+        invariant
+            link_inner.sent == old(link_inner).sent, link_inner.link == old(link_inner).link, link_inner.failures == old(link_inner).failures, link_inner.has_handle == old(link_inner).has_handle,
+            link_inner.incoming.got@.len() >= old(link_inner).incoming.got@.len(),
+//@@ end
+
+//@@ fn file=fe2o3-amqp/src/link/shared_inner.rs name=reattach_and_then_close
+//@@ generics
+//@@ nowhere
+//@@ qmark
+//@@ param link_inner : &mut EndS
+//@@ subst `link_inner .reattach_inner() .map_err(|_v0| DetachError::DetachedByRemote)?` => `(match link_inner.reattach_inner() { Ok(v) => v, Err(_e) => return Err(DetachError::DetachedByRemote) })` rule=R19
+//@@ spec
+    ensures
+        final(link_inner).sent@ == old(link_inner).sent@ || final(link_inner).sent@ == old(link_inner).sent@.push((true, None::<AmqpError>)),   // [C13.link.reattach-then-one-closing-detach] after the re-attach exactly one closing detach (without an error of our own) is sent, or none if the re-attach failed
+        r is Ok ==> final(link_inner).sent@ == old(link_inner).sent@.push((true, None::<AmqpError>)) && final(link_inner).link.st is Closed
+            && final(link_inner).incoming.got@.len() > old(link_inner).incoming.got@.len() && final(link_inner).incoming.got@.last() is Detach,   // [C13.link.detach-returns-after-peer-answer] Ok only after the peer's closing detach came back
+//@@ end
 
 impl EndS {
 //@@ fn file=fe2o3-amqp/src/link/shared_inner.rs impl=`~impl<T>LinkEndpointInnerDetachforT` name=detach_with_error
@@ -97,6 +151,16 @@ impl EndS {
             &&& (r is Err ==> final(self).sent@ == old(self).sent@)
             &&& (old(self).has_handle@ && final(self).failures@ == old(self).failures@ ==> r is Ok)                      // [C13.link.detach-always-answered]
         }),
+        // local-initiated detach of an attached link
+        old(self).link.st is Attached ==> ({
+            &&& (final(self).sent@.len() > old(self).sent@.len() ==> final(self).sent@[old(self).sent@.len() as int] == (false, error))       // [C13.link.local-detach-frame] the first thing queued is ONE non-closing detach carrying the application's error
+            &&& final(self).sent@.len() <= old(self).sent@.len() + 2                                                                      // (a second, closing one only in answer to a peer that closed: after the re-attach)
+            &&& (final(self).sent@.len() == old(self).sent@.len() + 2 ==> final(self).sent@.last() == (true, None::<AmqpError>))
+            &&& (r is Ok ==> final(self).incoming.got@.len() > old(self).incoming.got@.len() && final(self).link.st is Detached
+                    && final(self).sent@ == old(self).sent@.push((false, error)))                                                         // [C13.link.detach-returns-after-peer-answer] detach() returns Ok only after the peer's (non-closing, error-free) detach has arrived; then the link is Detached and exactly one detach was sent
+        }),
+        old(self).link.st is DetachSent ==> final(self).sent@.len() <= old(self).sent@.len() + 1
+            && (final(self).sent@.len() == old(self).sent@.len() + 1 ==> final(self).sent@.last() == (true, None::<AmqpError>)),          // [C13.link.one-detach] no second non-closing detach
         old(self).link.st is Detached ==> r is Ok && final(self).sent@ == old(self).sent@,                            // [C13.link.no-second-detach] an already detached link sends nothing more
         old(self).link.st is Closed ==> r is Err && final(self).sent@ == old(self).sent@,
 //@@ end
@@ -113,6 +177,13 @@ impl EndS {
             &&& (r is Err ==> final(self).sent@ == old(self).sent@)
         }),
         old(self).link.st is CloseReceived && r is Ok ==> final(self).link.st is Closed,
+        // local-initiated close of an attached link
+        old(self).link.st is Attached ==> ({
+            &&& (final(self).sent@.len() > old(self).sent@.len() ==> final(self).sent@[old(self).sent@.len() as int] == (true, error))        // [C13.link.local-close-frame] the first thing queued is ONE closing detach carrying the application's error
+            &&& final(self).sent@.len() <= old(self).sent@.len() + 2
+            &&& (r is Ok ==> final(self).incoming.got@.len() > old(self).incoming.got@.len() && final(self).link.st is Closed)             // [C13.link.detach-returns-after-peer-answer] close() returns Ok only after the peer's closing detach has arrived
+        }),
+        old(self).link.st is CloseSent ==> final(self).sent@.len() <= old(self).sent@.len() + 1,                                           // [C13.link.one-detach]
         old(self).link.st is Closed ==> r is Ok && final(self).sent@ == old(self).sent@,                              // [C13.link.no-detach-after-closed]
 //@@ end
 }
